@@ -435,7 +435,13 @@ def gen_run(seed: int, tier: str, sub: str) -> dict:
         threads = []
         for t in range(nthreads):
             ops = []
-            for name in (names if t % 2 == 0 else names[::-1]):
+            order = names if t % 2 == 0 else names[::-1]
+            if rot % 2 and 'q_a16' in names:
+                # the twins first, each thread starting with the other one: their derived copies are
+                # compiled for the first time at the same moment
+                tw = ['q_a16', 'q_b8'] if t % 2 == 0 else ['q_b8', 'q_a16']
+                order = tw + [n for n in order if n not in tw]
+            for name in order:
                 cargs, cctx = picks[name]
                 root = {'root': ['main', name], 'chain': []}
 
@@ -444,7 +450,7 @@ def gen_run(seed: int, tier: str, sub: str) -> dict:
                 ops.append(call(['main', name], root, 'default'))
                 ders = m['DERIVABLE'][name]
                 for q in range(len(ders)):
-                    strat, kw = ders[(q + t) % len(ders)]
+                    strat, kw = ders[(q + (0 if name in ('q_a16', 'q_b8') else t)) % len(ders)]
                     ref = ['d', t, len(ops)]
                     key = {'root': ['main', name], 'chain': [[strat, kw]]}
                     ops.append({'op': 'derive', 'src': ['main', name], 'strategy': strat, 'kw': kw, 'ref': ref, 'key': key})
